@@ -162,61 +162,7 @@ def run(rep: Report, tier: str) -> None:
     rep.floor("type cells", ncell, 16)
     rep.analysed = {"types": TYPES, "cells": ncell}
     # ---- R18.4: a Date column of a DataFrame is stored as TIMESTAMP as soon as ANY value carries a time (the CSV loader always does) ----
-    rep.rule("R18.4", "DataFrame Date column: TIMESTAMP iff some value has a time part (existential decision over all values)")
-    dd = P.func("vtlengine.duckdb_transpiler.io._io._detect_date_type_overrides")
-    # decided by evaluating the function (finite evaluator) on model columns: all dates / one date-time in first, middle, last position
-    from sa.e6 import Unmodelled as _Unm
-
-    class _Col:
-        def __init__(self, vals: List[Any]) -> None:
-            self.vals = vals
-
-        def dropna(self) -> List[Any]:
-            return [v for v in self.vals if v is not None]
-
-        def __iter__(self):
-            return iter(self.vals)
-
-    class _DF:
-        def __init__(self, cols: Dict[str, List[Any]]) -> None:
-            self.cols = cols
-            self.columns = list(cols)
-
-        def __getitem__(self, k: str) -> "_Col":
-            return _Col(self.cols[k])
-    D, T_ = "2020-01-15", "2020-01-16 10:30:00"
-    cases = {"all-dates": ([D, D, D], False), "first-has-time": ([T_, D, D], True), "middle-has-time": ([D, T_, D], True), "last-has-time": ([D, D, T_], True),
-             "all-have-time": ([T_, T_], True), "iso-T-separator": ([D, "2020-01-16T10:30:00"], True), "nulls-and-time": ([None, D, None, T_], True)}
-    comp = ExternalObj({"role": "Measure", "nullable": True, "data_type": ClassVal("vtlengine.DataTypes.Date"), "name": "C"})
-    other = ExternalObj({"role": "Measure", "nullable": True, "data_type": ClassVal("vtlengine.DataTypes.String"), "name": "S"})
-    for label, (vals, want) in cases.items():
-        try:
-            got = Interp(P).call(dd, {"df": _DF({"C": vals, "S": [T_]}), "components": {"C": comp, "S": other}})
-        except (_Unm, Raised) as e:
-            # a vectorised (pandas) formulation is outside the evaluator: decide by the reduction it uses
-            reductions = {c_.func.attr for c_ in ast.walk(dd.node) if isinstance(c_, ast.Call) and isinstance(c_.func, ast.Attribute) and c_.func.attr in ("all", "any")} | \
-                {c_.func.id for c_ in ast.walk(dd.node) if isinstance(c_, ast.Call) and isinstance(c_.func, ast.Name) and c_.func.id in ("all", "any")}
-            rep.instance("R18.4", "existential-decision/by-reduction", nontrivial=True, sample={"reductions": sorted(reductions), "not evaluated because": str(e)[:80]})
-            if "all" in reductions:
-                rep.add(Finding("R18.4", "R18.4/existential-decision", dd.module.rel, dd.node.lineno, dd.qualname,
-                                f"the TIMESTAMP decision for a DataFrame Date column is not `some value has a time part` (reductions used: {sorted(reductions)}): "
-                                f"a column mixing plain dates and date-times is stored as DATE and the times are silently dropped, while the CSV loader (always TIMESTAMP) keeps them"))
-            elif "any" not in reductions and any((isinstance(c_, ast.Attribute) and c_.attr in ("first_valid_index", "iloc", "iat", "head", "sample")) or
-                                                 (isinstance(c_, ast.Subscript) and isinstance(c_.slice, ast.Constant) and isinstance(c_.slice.value, int)) for c_ in ast.walk(dd.node)):
-                rep.add(Finding("R18.4", "R18.4/existential-decision", dd.module.rel, dd.node.lineno, dd.qualname,
-                                "the TIMESTAMP decision for a DataFrame Date column looks at a value picked by position (first valid value / iloc / head) instead of asking whether SOME value has a "
-                                "time part: a column whose first value is a plain date is stored as DATE and the times of the later values are dropped, while the CSV loader keeps them"))
-                break
-            elif "any" not in reductions:
-                raise AnalysisError(f"R18.4: _detect_date_type_overrides is neither evaluable ({e}) nor an any()/all() reduction")
-            break
-        rep.instance("R18.4", f"existential-decision/{label}", nontrivial=True, sample={"values": vals, "overrides": got})
-        is_ts = isinstance(got, dict) and str(got.get("C", "")).upper() == "TIMESTAMP"
-        if is_ts != want or (isinstance(got, dict) and "S" in got):
-            rep.add(Finding("R18.4", "R18.4/existential-decision", dd.module.rel, dd.node.lineno, dd.qualname,
-                            f"DataFrame Date column with the values {vals}: stored as {'TIMESTAMP' if is_ts else 'DATE'} (overrides = {got}); it must be TIMESTAMP exactly when SOME value has a "
-                            f"time part: a column mixing plain dates and date-times stored as DATE silently drops the times, while the CSV loader (always TIMESTAMP) keeps them"))
-            break
+    timestamp_decision_existential(P, rep, "R18.4")
     # ---- R18.8: a load error is a VTL error in every input form: the mapper that converts it cannot fail itself ----
     rep.rule("R18.8", "map_duckdb_error (the CSV / DataFrame / Parquet loaders' error mapper) guards every partial operation on the engine's message")
     from sa.checks.c32 import mapper_partial_operations
@@ -429,3 +375,65 @@ def integer_carrier_exact(P: Program, rep: Report, rule: str) -> None:
                             f"Integer component from a {st} source column is stored through `{' '.join(value_part.split())[:120]}`: the value passes through a binary float with 53 "
                             f"significant bits, so 9007199254740993 is loaded as 9007199254740992 - `DS_1 + 1`, `DS_1 = DS_2` and identifier matching then work on a neighbouring value"))
     rep.floor(f"{rule} integer source types", n, 4)
+
+
+def timestamp_decision_existential(P: Program, rep: Report, rule: str) -> None:
+    """_detect_date_type_overrides: a Date column of a DataFrame is stored as TIMESTAMP iff SOME value has a time part (evaluated over value
+    lists; vectorised formulations decided by their reduction).  Shared with C06 / C33: a decision taken from the first value makes the
+    stored values - and every range window ordered by them - depend on the order of the input rows."""
+    from sa.e6 import Unmodelled as _Unm
+    rep.rule(rule, "DataFrame Date column: TIMESTAMP iff some value has a time part (existential decision over all values)")
+    dd = P.func("vtlengine.duckdb_transpiler.io._io._detect_date_type_overrides")
+    # decided by evaluating the function (finite evaluator) on model columns: all dates / one date-time in first, middle, last position
+    from sa.e6 import Unmodelled as _Unm
+
+    class _Col:
+        def __init__(self, vals: List[Any]) -> None:
+            self.vals = vals
+
+        def dropna(self) -> List[Any]:
+            return [v for v in self.vals if v is not None]
+
+        def __iter__(self):
+            return iter(self.vals)
+
+    class _DF:
+        def __init__(self, cols: Dict[str, List[Any]]) -> None:
+            self.cols = cols
+            self.columns = list(cols)
+
+        def __getitem__(self, k: str) -> "_Col":
+            return _Col(self.cols[k])
+    D, T_ = "2020-01-15", "2020-01-16 10:30:00"
+    cases = {"all-dates": ([D, D, D], False), "first-has-time": ([T_, D, D], True), "middle-has-time": ([D, T_, D], True), "last-has-time": ([D, D, T_], True),
+             "all-have-time": ([T_, T_], True), "iso-T-separator": ([D, "2020-01-16T10:30:00"], True), "nulls-and-time": ([None, D, None, T_], True)}
+    comp = ExternalObj({"role": "Measure", "nullable": True, "data_type": ClassVal("vtlengine.DataTypes.Date"), "name": "C"})
+    other = ExternalObj({"role": "Measure", "nullable": True, "data_type": ClassVal("vtlengine.DataTypes.String"), "name": "S"})
+    for label, (vals, want) in cases.items():
+        try:
+            got = Interp(P).call(dd, {"df": _DF({"C": vals, "S": [T_]}), "components": {"C": comp, "S": other}})
+        except (_Unm, Raised) as e:
+            # a vectorised (pandas) formulation is outside the evaluator: decide by the reduction it uses
+            reductions = {c_.func.attr for c_ in ast.walk(dd.node) if isinstance(c_, ast.Call) and isinstance(c_.func, ast.Attribute) and c_.func.attr in ("all", "any")} | \
+                {c_.func.id for c_ in ast.walk(dd.node) if isinstance(c_, ast.Call) and isinstance(c_.func, ast.Name) and c_.func.id in ("all", "any")}
+            rep.instance(rule, "existential-decision/by-reduction", nontrivial=True, sample={"reductions": sorted(reductions), "not evaluated because": str(e)[:80]})
+            if "all" in reductions:
+                rep.add(Finding(rule, "R18.4/existential-decision", dd.module.rel, dd.node.lineno, dd.qualname,
+                                f"the TIMESTAMP decision for a DataFrame Date column is not `some value has a time part` (reductions used: {sorted(reductions)}): "
+                                f"a column mixing plain dates and date-times is stored as DATE and the times are silently dropped, while the CSV loader (always TIMESTAMP) keeps them"))
+            elif "any" not in reductions and any((isinstance(c_, ast.Attribute) and c_.attr in ("first_valid_index", "iloc", "iat", "head", "sample")) or
+                                                 (isinstance(c_, ast.Subscript) and isinstance(c_.slice, ast.Constant) and isinstance(c_.slice.value, int)) for c_ in ast.walk(dd.node)):
+                rep.add(Finding(rule, "R18.4/existential-decision", dd.module.rel, dd.node.lineno, dd.qualname,
+                                "the TIMESTAMP decision for a DataFrame Date column looks at a value picked by position (first valid value / iloc / head) instead of asking whether SOME value has a "
+                                "time part: a column whose first value is a plain date is stored as DATE and the times of the later values are dropped, while the CSV loader keeps them"))
+                break
+            elif "any" not in reductions:
+                raise AnalysisError(f"{rule}: _detect_date_type_overrides is neither evaluable ({e}) nor an any()/all() reduction")
+            break
+        rep.instance(rule, f"existential-decision/{label}", nontrivial=True, sample={"values": vals, "overrides": got})
+        is_ts = isinstance(got, dict) and str(got.get("C", "")).upper() == "TIMESTAMP"
+        if is_ts != want or (isinstance(got, dict) and "S" in got):
+            rep.add(Finding(rule, "R18.4/existential-decision", dd.module.rel, dd.node.lineno, dd.qualname,
+                            f"DataFrame Date column with the values {vals}: stored as {'TIMESTAMP' if is_ts else 'DATE'} (overrides = {got}); it must be TIMESTAMP exactly when SOME value has a "
+                            f"time part: a column mixing plain dates and date-times stored as DATE silently drops the times, while the CSV loader (always TIMESTAMP) keeps them"))
+            break
